@@ -2,6 +2,7 @@ import MpsVerif.Drv.Fifo
 import MpsVerif.Drv.Buffer
 import MpsVerif.Drv.Ledger
 import MpsVerif.Drv.RemoteExc
+import MpsVerif.Drv.AFifo
 
 def main (args : List String) : IO UInt32 := do
   match args with
@@ -9,4 +10,6 @@ def main (args : List String) : IO UInt32 := do
   | ["buffer"] => Buffer.Drv.main; return 0
   | ["ledger"] => Ledger.Drv.main; return 0
   | ["remoteexc"] => RemoteExc.Drv.main; return 0
+  | ["afifo"] => AFifo.Drv.main; return 0
+  | ["afifostale"] => AFifo.Drv.mainStale; return 0
   | _ => IO.eprintln s!"usage: drv <model>   (models: fifo)"; return 2
